@@ -29,6 +29,7 @@ type envRow struct {
 type envTable struct {
 	Q        int      `json:"q"`
 	Grid     []Val    `json:"grid"`
+	GridC    []Val    `json:"gridc"` // the value grid of the cx / xc families (environment set "c")
 	Rows     []envRow `json:"rows"`
 	Objs     []objDef `json:"objs"` // ids 1..n
 	MaxCalls int      `json:"maxcalls"`
@@ -53,10 +54,23 @@ type variant struct {
 	name                                       string
 	syntax, whitespace, identifiers, keepNames bool
 	bundle                                     bool
+	mode                                       string // xc family: how the outer constants are realised (xc.go)
 }
 
 func (v variant) options() map[string]interface{} {
-	return map[string]interface{}{"minifySyntax": v.syntax, "minifyWhitespace": v.whitespace, "minifyIdentifiers": v.identifiers, "keepNames": v.keepNames, "bundle": v.bundle}
+	m := map[string]interface{}{"minifySyntax": v.syntax, "minifyWhitespace": v.whitespace, "minifyIdentifiers": v.identifiers, "keepNames": v.keepNames, "bundle": v.bundle}
+	if v.mode != "" {
+		m["constants"] = v.mode
+	}
+	return m
+}
+
+// envSetOf: the cx / xc families run over the second value grid
+func envSetOf(kind string) string {
+	if kind == "cx" || kind == "xc" {
+		return "c"
+	}
+	return "q"
 }
 
 func flagName(s, w, i bool) string {
@@ -234,7 +248,7 @@ func generate(r *core.Run, cfgName string, subst map[string]string) (*envTable, 
 }
 
 func (t *envTable) nodeInput() nodeIn {
-	in := nodeIn{Budget: t.MaxCalls, Vals: t.Grid, Objs: map[string]objDef{}, EnvSets: map[string][]envRec{}}
+	in := nodeIn{Budget: t.MaxCalls, Vals: append(append([]Val{}, t.Grid...), t.GridC...), Objs: map[string]objDef{}, EnvSets: map[string][]envRec{}}
 	for i, o := range t.Objs {
 		in.Objs[fmt.Sprint(i+1)] = o
 	}
@@ -247,16 +261,74 @@ func (t *envTable) nodeInput() nodeIn {
 		envs[i] = e
 	}
 	in.EnvSets["q"] = envs
+	// set "c": the same rows over GridC (its values follow Grid in vals); -1 stays "undeclared / absent"
+	off := func(i int) int {
+		if i < 0 {
+			return i
+		}
+		return i + len(t.Grid)
+	}
+	envc := make([]envRec, len(envs))
+	for i, e := range envs {
+		c := envRec{P: make([]int, len(e.P)), A: off(e.A), B: off(e.B), G: off(e.G), Ok: off(e.Ok)}
+		for n := 1; n < len(e.P); n++ {
+			c.P[n] = off(e.P[n])
+		}
+		envc[i] = c
+	}
+	in.EnvSets["c"] = envc
 	return in
 }
 
 const progChunk = 100
 
 type chunkWork struct {
+	fam   *family
 	ps    []*progCase
 	outs  []string // per variant
 	vidx  []int    // node variant number (>= 1) -> variant index
-	plain string
+	plain string   // the unminified print (same realisation as the output whose index is sref)
+	sref  int      // index into outs of the syntax-only output that is compared with plain (-1: none)
+}
+
+// a family of programs that is built the same way: the variants (option sets) and how one
+// chunk of programs becomes the reference script (V8-on-input) and one output per variant
+type family struct {
+	name     string
+	ps       []*progCase
+	variants []variant
+	// source of the chunk as given to V8 (the reference) for these programs
+	input func(ps []*progCase) string
+	// the outputs of the chunk: out[k] belongs to variants[vidx[k]]; plain = unminified print
+	outputs func(r *core.Run, ci int, ps []*progCase) (plain string, outs []string, vidx []int, sref int)
+}
+
+func mainFamily(r *core.Run, name string, ps []*progCase, variants []variant) *family {
+	f := &family{name: name, ps: ps, variants: variants, input: chunkSource}
+	f.outputs = func(r *core.Run, ci int, ps []*progCase) (string, []string, []int, int) {
+		src := chunkSource(ps)
+		plain, _ := transform(src, api.LoaderJS, false, false, false, false, nil)
+		var outs []string
+		var vidx []int
+		sref := -1
+		for vi, v := range variants {
+			if v.bundle && !r.Thorough() && ci%4 != 0 {
+				continue // quick: api.Build for a subset of the chunks
+			}
+			out, err := build(src, v)
+			if err != nil {
+				r.Infra("esbuild rejected a chunk under %s that it accepts without minification: %v", v.name, err)
+				continue
+			}
+			if v.syntax && !v.whitespace && !v.bundle && !v.identifiers && !v.keepNames {
+				sref = len(outs)
+			}
+			outs = append(outs, out)
+			vidx = append(vidx, vi)
+		}
+		return plain, outs, vidx, sref
+	}
+	return f
 }
 
 // programBinding replays the generated programs into the real minifier and V8
@@ -271,45 +343,83 @@ func programBinding(r *core.Run, cfgName string) {
 	owg.Add(1)
 	go func() { defer owg.Done(); optionsBinding(r, table, opts); namesBinding(r, nameCases) }()
 	defer owg.Wait()
-	variants := variantsFor(r)
-	vnames := []string{}
-	for _, v := range variants {
-		vnames = append(vnames, v.name)
-	}
-	r.Set("option_sets", vnames)
 
 	// render, de-duplicate
 	seen := map[string]bool{}
-	var uniq []*progCase
+	var uniq, cxs, xcs []*progCase
 	kinds := map[string]int{}
+	pairs := map[string]map[int]bool{}
 	for _, p := range progs {
 		p.fn = function(p.Prog)
 		p.id = core.Hash(p.fn)
+		if p.Kind == "cx" || p.Kind == "xc" {
+			p.id = core.Hash(p.Kind + p.fn) // these run over their own value grid: not merged with an equal program of another family
+		}
+		if p.Kind == "cx" || p.Kind == "xc" {
+			if pairs[p.Kind] == nil {
+				pairs[p.Kind] = map[int]bool{}
+			}
+			pairs[p.Kind][p.Idx/100] = true // (context, operand kind) of the descriptor
+		}
 		if seen[p.id] {
 			continue
 		}
 		seen[p.id] = true
-		uniq = append(uniq, p)
 		kinds[p.Kind]++
+		if p.Kind == "xc" {
+			xcs = append(xcs, p)
+		} else if p.Kind == "cx" && r.Thorough() {
+			cxs = append(cxs, p)
+		} else {
+			uniq = append(uniq, p)
+		}
 	}
+	fams := []*family{mainFamily(r, "main", uniq, variantsFor(r))}
+	if len(cxs) > 0 {
+		// thorough: the cx programs contain no function or class, so keep-names cannot matter:
+		// all 8 flag subsets and the bundles, without the keep-names twins
+		var vs []variant
+		for _, v := range variantsFor(r) {
+			if !v.keepNames {
+				vs = append(vs, v)
+			}
+		}
+		fams = append(fams, mainFamily(r, "cx", cxs, vs))
+	}
+	if len(xcs) > 0 {
+		fams = append(fams, xcFamily(r, xcs))
+	}
+	vnames := []string{}
+	for _, f := range fams {
+		for _, v := range f.variants {
+			vnames = append(vnames, v.name)
+		}
+	}
+	r.Set("option_sets", vnames)
 	r.Set("programs_by_family", kinds)
-	r.Logf("programs: %d generated, %d distinct; %d environments each (Q=%d); variants %v", len(progs), len(uniq), len(table.Rows), table.Q, vnames)
+	r.Set("context_x_kind_pairs", map[string]int{"cx": len(pairs["cx"]), "xc": len(pairs["xc"])})
+	r.Logf("programs: %d generated, %d distinct (%v); %d environments each (Q=%d); variants %v", len(progs), len(uniq)+len(cxs)+len(xcs), kinds, len(table.Rows), table.Q, vnames)
 
-	nchunks := (len(uniq) + progChunk - 1) / progChunk
-	works := make([]*chunkWork, nchunks)
+	var works []*chunkWork
+	for _, f := range fams {
+		for lo := 0; lo < len(f.ps); lo += progChunk {
+			hi := lo + progChunk
+			if hi > len(f.ps) {
+				hi = len(f.ps)
+			}
+			works = append(works, &chunkWork{fam: f, ps: f.ps[lo:hi]})
+		}
+	}
+	nchunks := len(works)
 	jobs := make([]job, nchunks)
 	var rejected int64
 	var mu sync.Mutex
 	core.Parallel(nchunks, 8, func(ci int) {
-		lo, hi := ci*progChunk, (ci+1)*progChunk
-		if hi > len(uniq) {
-			hi = len(uniq)
-		}
-		w := &chunkWork{ps: uniq[lo:hi]}
+		w := works[ci]
 		// a program esbuild rejects is not this property's business: drop it from the chunk
-		var ok []*progCase
 		src := chunkSource(w.ps)
 		if _, err := transform(src, api.LoaderJS, false, false, false, false, nil); err != nil {
+			var ok []*progCase
 			for _, p := range w.ps {
 				if _, err := transform("globalThis.main0 = "+p.fn+";", api.LoaderJS, true, false, false, false, nil); err != nil {
 					mu.Lock()
@@ -324,44 +434,30 @@ func programBinding(r *core.Run, cfgName string) {
 				ok = append(ok, p)
 			}
 			w.ps = ok
-			src = chunkSource(w.ps)
 		}
-		j := job{ID: fmt.Sprintf("prog%d", ci), Srcs: []string{src}}
+		j := job{ID: fmt.Sprintf("prog%d", ci), Srcs: []string{w.fam.input(w.ps)}}
 		for k, p := range w.ps {
 			want := []int{}
 			for _, row := range p.Rows {
 				want = append(want, row[0]*table.Q+row[1])
 			}
-			j.Units = append(j.Units, unit{ID: p.id, Call: fmt.Sprintf("main%d(__env.a, __env.b)", k), EnvSet: "q", Want: want,
+			j.Units = append(j.Units, unit{ID: p.id, Call: fmt.Sprintf("main%d(__env.a, __env.b)", k), EnvSet: envSetOf(p.Kind), Want: want,
 				NoG: !strings.Contains(p.fn, "G"), NoO: !strings.Contains(p.fn, "o.") && !strings.Contains(p.fn, "o[") && !strings.Contains(p.fn, "o?")})
 		}
-		w.plain, _ = transform(src, api.LoaderJS, false, false, false, false, nil)
-		for vi, v := range variants {
-			if v.bundle && !r.Thorough() && ci%4 != 0 {
-				continue // quick: api.Build for a subset of the chunks
-			}
-			out, err := build(src, v)
-			if err != nil {
-				mu.Lock()
-				r.Infra("esbuild rejected a chunk under %s that it accepts without minification: %v", v.name, err)
-				mu.Unlock()
-				continue
-			}
-			w.outs = append(w.outs, out)
-			w.vidx = append(w.vidx, vi)
-			j.Srcs = append(j.Srcs, out)
-		}
-		works[ci] = w
+		w.plain, w.outs, w.vidx, w.sref = w.fam.outputs(r, ci, w.ps)
+		j.Srcs = append(j.Srcs, w.outs...)
 		jobs[ci] = j
 	})
 	in := table.nodeInput()
 	in.Jobs = jobs
 	results := runNode(r, in, 8, time.Duration(r.Pick(10, 40))*time.Minute)
 
-	var validated, specUnk, nontrivial int64
+	var validated, specUnk, nontrivial, evals int64
 	labelCount := map[string]int{}
 	var pends []pend
 	for ci, w := range works {
+		variants := w.fam.variants
+		evals += int64(len(w.ps)) * int64(len(w.outs)) * int64(len(table.Rows))
 		jr := results[jobs[ci].ID]
 		if jr == nil {
 			continue
@@ -382,10 +478,8 @@ func programBinding(r *core.Run, cfgName string) {
 		}
 		// which programs did the syntax minifier change?
 		var segS, segP map[string]string
-		for k, vi := range w.vidx {
-			if variants[vi].syntax && !variants[vi].whitespace && !variants[vi].bundle && !variants[vi].identifiers {
-				segS = segments(w.outs[k])
-			}
+		if w.sref >= 0 {
+			segS = segments(w.outs[w.sref])
 		}
 		segP = segments(w.plain)
 		for ui := range jr.Units {
@@ -433,9 +527,10 @@ func programBinding(r *core.Run, cfgName string) {
 	}
 	// a mismatch is a violation when the specification confirms V8's trace of the INPUT in that environment
 	confirmMismatches(r, table, pends)
-	r.AddEvaluations(int64(len(uniq)) * int64(len(variants)) * int64(len(table.Rows)))
+	nprogs := len(uniq) + len(cxs) + len(xcs)
+	r.AddEvaluations(evals)
 	r.AddTraces(validated)
-	r.Set("programs", len(uniq))
+	r.Set("programs", nprogs)
 	r.Set("programs_rejected_by_esbuild", rejected)
 	r.Set("environments_per_program", len(table.Rows))
 	r.Set("spec_rows_validated_against_v8", validated)
@@ -447,7 +542,7 @@ func programBinding(r *core.Run, cfgName string) {
 			r.Infra("pattern class %q is not inhabited by the generated programs", c)
 		}
 	}
-	r.Logf("programs: %d distinct, %d changed by the minifier and in a pattern class; %d spec rows validated against V8, %d rows not exact in the spec, %d rejected by esbuild", len(uniq), nontrivial, validated, specUnk, rejected)
+	r.Logf("programs: %d distinct, %d changed by the minifier and in a pattern class; %d spec rows validated against V8, %d rows not exact in the spec, %d rejected by esbuild", nprogs, nontrivial, validated, specUnk, rejected)
 }
 
 var requiredClasses = []string{"not-over-comparison", "known-truthiness", "if-with-jump", "single-use-substitution",
@@ -470,7 +565,7 @@ func (x *pend) report(r *core.Run, table *envTable, specTrace string) {
 	}
 	r.Violation(map[string]interface{}{"kind": "prog", "prog": x.p.id, "source": x.p.fn, "variant": x.v.name},
 		fmt.Sprintf("minified program behaves differently (options %s, environment row %v):\n%s\n  input : %s\n  output: %s", x.v.name, row, x.p.fn, x.m.Input, x.m.Output),
-		map[string]interface{}{"input": "globalThis.main = " + x.p.fn + ";", "output_program": outSeg, "options": x.v.options(), "env_row": row,
+		map[string]interface{}{"input": "globalThis.main = " + x.p.fn + ";", "reference_prelude": referencePrelude(x.p.Kind), "output_program": outSeg, "options": x.v.options(), "env_row": row, "q": table.Q,
 			"v8_input": x.m.Input, "v8_output": x.m.Output, "spec": specTrace, "labels": x.p.Labels, "family": x.p.Kind, "prog_ast": x.p.RawProg})
 }
 
@@ -485,6 +580,13 @@ func confirmMismatches(r *core.Run, table *envTable, pends []pend) {
 		ID   int             `json:"id"`
 		Prog json.RawMessage `json:"prog"`
 		Rows [][]int         `json:"rows"`
+		Grid int             `json:"grid"` // 1: the rows are over CxGrid
+	}
+	gridOf := func(kind string) int {
+		if envSetOf(kind) == "c" {
+			return 1
+		}
+		return 0
 	}
 	var reqs []req
 	var asked []*pend
@@ -521,7 +623,7 @@ func confirmMismatches(r *core.Run, table *envTable, pends []pend) {
 			continue
 		}
 		done[key] = true
-		reqs = append(reqs, req{ID: len(reqs) + 1, Prog: x.p.RawProg, Rows: [][]int{{i0, j0}}})
+		reqs = append(reqs, req{ID: len(reqs) + 1, Prog: x.p.RawProg, Rows: [][]int{{i0, j0}}, Grid: gridOf(x.p.Kind)})
 		asked = append(asked, x)
 	}
 	if len(reqs) == 0 {
@@ -540,8 +642,15 @@ func confirmMismatches(r *core.Run, table *envTable, pends []pend) {
 	}
 	answers := map[int]*ans{}
 	var mu sync.Mutex
-	res := tlcrun.MustHold(r, tlcrun.Options{Module: "JsSemGen", Config: "JsSemGen.eval.cfg", Workers: 4, TimeoutSec: 600, XssMB: 256, HeapGB: 2,
-		Files: map[string]string{"c03_eval.ndjson": nd.String()},
+	// the requests name rows of THIS run's environment table: the evaluation must use the same Q
+	evalCfg, err := os.ReadFile(filepath.Join(r.Verif, "spec", "cfg", "JsSemGen.eval.cfg"))
+	if err != nil {
+		r.Infra("cannot read JsSemGen.eval.cfg: %v", err)
+		return
+	}
+	cfgQ := regexp.MustCompile(`(?m)^(\s*Q\s*=\s*).*$`).ReplaceAllString(string(evalCfg), "${1}"+fmt.Sprint(table.Q))
+	res := tlcrun.MustHold(r, tlcrun.Options{Module: "JsSemGen", Config: "JsSemGen.eval.cfg", Workers: 4, TimeoutSec: r.Pick(600, 1800), XssMB: 256, HeapGB: 2,
+		Files: map[string]string{"c03_eval.ndjson": nd.String(), "JsSemGen.eval.cfg": cfgQ},
 		OnCase: func(raw []byte) {
 			var a ans
 			if json.Unmarshal(raw, &a) == nil && a.Spec == "JsSemReq" {
